@@ -72,7 +72,7 @@ func init() {
 	}})
 	specs = append(specs, Spec{ID: "C15", Level: "exploration", MinDistinct: 2, Engines: []Engine{
 		{Name: "race", Pkg: "./mon/c15", Race: true, DeathSig: "C15/process-died", RepeatQuick: 1, RepeatThorough: 4},
-		{Name: "coop", Pkg: "./mon/rulesco", Instr: []string{"core/flow/rule_manager.go+sync", "core/isolation/rule_manager.go+sync", "core/hotspot/rule_manager.go+sync", "core/circuitbreaker/rule_manager.go+sync", "core/circuitbreaker/circuit_breaker.go",
+		{Name: "coop", Pkg: "./mon/rulesco", Instr: []string{"core/flow/rule_manager.go+sync", "core/isolation/rule_manager.go+sync", "core/hotspot/rule_manager.go+sync", "core/circuitbreaker/rule_manager.go+sync", "core/circuitbreaker/circuit_breaker.go", "core/system/rule_manager.go+sync",
 			"core/hotspot/cache/concurrent_lru.go+sync", "core/hotspot/traffic_shaping.go", "core/stat/base_node.go", "core/stat/node_storage.go+sync", "core/stat/base/leap_array.go", "core/stat/base/bucket_leap_array.go"}},
 	}})
 	specs = append(specs, Spec{ID: "C16", Level: "exploration", MinDistinct: 50, Engines: []Engine{
